@@ -35,10 +35,41 @@ type Care struct {
 
 type ea struct{ lo, hi uint32 }
 
+// Quirks are named, switchable deviations from the WDC model. Each reproduces exactly one
+// known wrong behaviour of the implementation so that it can be recognised by signature.
+type Quirks uint32
+
+const (
+	// QDecimalLegacy: decimal-mode ADC/SBC computed as binary sum (SBC: a + ^d + c) followed by a
+	// per-nibble "+6 if nibble > 9" adjustment without inter-nibble carries (defect F4).
+	QDecimalLegacy Quirks = 1 << iota
+)
+
 type cpu struct {
 	s    *State
 	m    Mem
 	care Care
+	q    Quirks
+}
+
+// legacyDecimal is the implementation's decimal arithmetic (both interpreters share it).
+func (c *cpu) legacyDecimal(a, d uint32, w int) {
+	cin := uint32(0)
+	if c.flag(FC) {
+		cin = 1
+	}
+	mask := uint32(1)<<uint(w) - 1
+	sign := uint32(1) << uint(w-1)
+	sum := a + d + cin
+	for i := 0; i < w; i += 4 {
+		if sum&(0xF<<uint(i)) > 0x9<<uint(i) {
+			sum += 0x6 << uint(i)
+		}
+	}
+	c.setf(FC, sum > mask)
+	c.setf(FV, (a^d)&sign == 0 && (a^sum)&sign != 0)
+	c.setA(sum&mask, w)
+	c.nz(sum&mask, w)
 }
 
 func (c *cpu) rd(a uint32) byte      { return c.m.Read(a & 0xFFFFFF) }
@@ -176,6 +207,10 @@ func (c *cpu) adc(d uint32, w int) {
 		c.nz(t&mask, w)
 		return
 	}
+	if c.q&QDecimalLegacy != 0 {
+		c.legacyDecimal(a, d, w)
+		return
+	}
 	c.care.IgnoreP |= FV
 	if !validBCD(a, w) || !validBCD(d, w) {
 		c.care.IgnoreA = true
@@ -206,6 +241,10 @@ func (c *cpu) sbc(d uint32, w int) {
 		return
 	}
 	a := c.getA(w)
+	if c.q&QDecimalLegacy != 0 {
+		c.legacyDecimal(a, (^d)&mask, w)
+		return
+	}
 	c.care.IgnoreP |= FV
 	if !validBCD(a, w) || !validBCD(d, w) {
 		c.care.IgnoreA = true
@@ -269,9 +308,12 @@ func (c *cpu) shift(mn string, v uint32, w int) uint32 {
 	return r
 }
 
-// Step executes one instruction.
-func Step(s *State, m Mem) Care {
-	c := &cpu{s: s, m: m}
+// Step executes one instruction per the WDC model.
+func Step(s *State, m Mem) Care { return StepQ(s, m, 0) }
+
+// StepQ executes one instruction with the given quirks enabled.
+func StepQ(s *State, m Mem, q Quirks) Care {
+	c := &cpu{s: s, m: m, q: q}
 	opc := c.op(0)
 	e := Table[opc]
 	mw, xw := 16, 16
